@@ -55,9 +55,12 @@ def type_order(s):
     return out
 
 
-def render_sdl(s, order=None, explicit_roots=False):
+def render_sdl(s, order=None, explicit_roots=False, extensions=False):
+    """extensions=True: the same schema written with `extend type`: interfaces of an object move to a field-less
+    `extend type X implements I`, the last field of every object with two or more fields moves to `extend type X { f }`"""
     order = order or type_order(s)
     out = []
+    tail = []
     if explicit_roots:
         roots = ["query: %s" % s["query"]] + (["mutation: %s" % s["mutation"]] if s.get("mutation") else [])
         out.append("schema { %s }" % " ".join(roots))
@@ -75,13 +78,20 @@ def render_sdl(s, order=None, explicit_roots=False):
                     dep = " @deprecated" if f[2] == "" else ' @deprecated(reason: "%s")' % f[2]
                 fs.append("%s: %s%s" % (f[0], f[1], dep))
             impl = (" implements " + " & ".join(d["implements"])) if d.get("implements") else ""
+            if extensions and key == "objects":
+                if impl:
+                    tail.append("extend type %s%s" % (n, impl))
+                    impl = ""
+                if len(fs) >= 2:
+                    tail.append("extend type %s { %s }" % (n, fs[-1]))
+                    fs = fs[:-1]
             out.append("%s %s%s { %s }" % ("type" if key == "objects" else "interface", n, impl, " ".join(fs)))
         elif key == "unions":
             out.append("union %s = %s" % (n, " | ".join(s["unions"][n])))
         elif key == "inputs":
             d = s["inputs"][n]
             out.append("input %s%s { %s }" % (n, " @oneOf" if d.get("one_of") else "", " ".join("%s: %s" % (a, b) for (a, b) in d["fields"])))
-    return "\n".join(out)
+    return "\n".join(out + tail)
 
 
 def render_json(s, order=None, wrap_data=False, with_builtin=True, is_one_of_key=True):
@@ -221,6 +231,7 @@ def c07_differential(tier):
                 opts = {"deprecation": strat}
                 base = tokens_of(gen(render_sdl(s), "graphql", q, opts))
                 variants = [("sdl+schema{}", render_sdl(s, explicit_roots=True), "graphql"),
+                            ("sdl+extend type", render_sdl(s, extensions=True), "graphql"),
                             ("json", render_json(s), "json"), ("json+data", render_json(s, wrap_data=True), "json"),
                             ("json-no-builtin", render_json(s, with_builtin=False), "json")]
                 for (nm, text, ext) in variants:
